@@ -29,6 +29,9 @@ THEOREMS = [
     "C09_run_eq_any_schedule",
     "C09_refused_run",
     "C09_hint_chain_is_C04",
+    "C09_wired_start_once",
+    "C09_wired_anyOf_witness",
+    "C09_scraped_label_rule",
     "C09_macro_eq_inlined",
     "C09_by_value_rerun",
     "C09_links_sync_partial",
@@ -206,8 +209,11 @@ def input_kind(defn, path, k):
     return "connected" if role(parent, s[1]) == ("ui",) else "receiver"
 
 
-def py_eval(n, ins, ov, path):
-    """plain Python evaluation of the definition on token strings; `ov` overrides free child inputs"""
+def py_eval(n, ins, ov, path, prev=None):
+    """plain Python evaluation of the definition on token strings; `ov` overrides free child inputs.
+    `prev` is the snapshot of this node before the run: a keyword argument naming the child itself or a later
+    child (a cycle the creator closed by hand) reads what that child held BEFORE the run — and, like `fetch`,
+    leaves the input as it was when that is no data."""
     if n["t"] == "L":
         return [f"f{n['f']}(" + ",".join(ins) + ")"]
     outs = []
@@ -216,14 +222,24 @@ def py_eval(n, ins, ov, path):
         for i, s in enumerate(ch["srcs"]):
             if s[0] == "a":
                 vals.append(ins[s[1]])
-            elif s[0] == "o":
+            elif s[0] == "o" and s[1] < j:
                 vals.append(outs[s[1]][s[2]])
+            elif s[0] == "o":
+                before = prev["kids"][s[1]]["out"][s[2]] if prev else "ND"
+                vals.append(before if before != "ND" else (prev["kids"][j]["in"][i] if prev else default_tok(ch, i)))
             elif s[0] == "k":
                 vals.append(ov.get((tuple(path) + (j,), i), jtok(s[1])))
             else:
                 vals.append(ov.get((tuple(path) + (j,), i), default_tok(ch, i)))
-        outs.append(py_eval(ch, vals, ov, tuple(path) + (j,)))
+        outs.append(py_eval(ch, vals, ov, tuple(path) + (j,), prev["kids"][j] if prev else None))
     return [ins[r[1]] if r[0] == "a" else outs[r[1]][r[2]] for r in n["rets"]]
+
+
+def has_cyc(n):
+    """some keyword argument names the child itself or a later child (hand-wired flows only)"""
+    if n["t"] == "L":
+        return False
+    return any(has_cyc(ch) or any(D.is_fwd(j, s) for s in ch["srcs"]) for j, ch in enumerate(n["body"]))
 
 
 def py_flat(n, ins, ov, path, acc):
@@ -396,6 +412,23 @@ def gen_macro(rng, ids, depth_left, allow_dup, top=False, allow_base=True):
         m["lab"] = "declare"
     if not rets:
         m["lab"] = "scrape"  # nothing to declare
+    # the creator's first parameter and local variables it returns (names that START with that parameter's name)
+    m["selfarg"] = rng.choice(["self", "self", "m", "wf"])
+    if rets and rng.random() < 0.45:
+        pool = {"self": ["selfish", "self_energy", "selfx"], "m": ["mean", "m_out", "mx"],
+                "wf": ["wfx", "wf_out", "wfresult"]}[m["selfarg"]] + ["res", "val"]
+        rng.shuffle(pool)
+        m["loc"] = [pool.pop() if rng.random() < 0.6 else None for _ in rets]
+        if D.can_scrape(m) and rng.random() < 0.8:
+            m["lab"] = "scrape"
+    # a hand-wired flow may close a data cycle: a child fed by its own output is not idempotent
+    if m["flow"] == "wired" and rng.random() < 0.45:
+        leaves = [j for j, ch in enumerate(body) if ch["t"] == "L"]
+        if leaves:
+            j = rng.choice(leaves)
+            free = [i for i, sx in enumerate(body[j]["srcs"]) if sx[0] in ("n", "k")]
+            if free:
+                body[j]["srcs"][rng.choice(free)] = ["o", j, 0]
     if allow_base and rng.random() < 0.12:
         # the class extends another concrete macro class (own signature, own body, own labels)
         base = gen_macro(rng, ids, 0, False, allow_base=False)
@@ -601,9 +634,45 @@ def _case(rng, tier_depth, mode, allow_dup, allow_ill):
     if not hints_consistent(defn) and not allow_ill:
         strip_hints(defn)
     cache = (rng.random() < 0.6) if mode == "clean" else (rng.random() < 0.35)
+    if has_cyc(defn):
+        cache = False  # a self-feeding child is not a function of its inputs: caching is not transparent for it
     kwargs, ops = gen_history(rng, defn, mode, cache)
     return {"def": defn, "kwargs": kwargs, "cache": cache, "ops": ops, "mode": mode,
             "touch_base": rng.random() < 0.7}
+
+
+def _wired_case(rng):
+    """hand-wired flow, two or three parameters that all survive as UI nodes (forked or passed through), a chain
+    of leaves of which one feeds itself"""
+    ids = _Ids()
+    nargs = rng.choice([2, 2, 3])
+    args = [{"d": _const(rng), "h": 0} for _ in range(nargs)]
+    nleaf = rng.randint(2, 4)
+    body = []
+    for j in range(nleaf):
+        srcs = [["a", rng.randrange(nargs)] for _ in range(3)]
+        if j and rng.random() < 0.6:
+            srcs[rng.randrange(3)] = ["o", rng.randrange(j), 0]
+        body.append({"t": "L", "f": ids.fn(), "srcs": srcs})
+    # every parameter at least twice (or passed through)
+    rets = [["o", nleaf - 1, 0]]
+    for k in range(nargs):
+        n_use = sum(1 for ch in body for sx in ch["srcs"] if sx == ["a", k])
+        if n_use < 2:
+            if rng.random() < 0.5:
+                rets.append(["a", k])
+            else:
+                for ch in body[:2]:
+                    ch["srcs"][rng.randrange(3)] = ["a", k]
+    feeder = rng.randrange(nleaf)
+    body[feeder]["srcs"][rng.randrange(3)] = ["o", feeder, 0]
+    m = {"t": "M", "id": 1, "args": args, "body": body, "rets": rets, "oh": [0] * len(rets), "srcs": [],
+         "flow": "wired", "lab": "declare", "style": rng.choice(["deco", "class"]), "selfarg": rng.choice(["self", "m", "wf"])}
+    ops = [["run"]]
+    for _ in range(rng.randint(1, 3)):
+        ops.append(rng.choice([["run"], ["setin", [], rng.randrange(nargs), _value(rng)], ["run"]]))
+    ops.append(["run"])
+    return {"def": m, "kwargs": [], "cache": False, "ops": ops, "mode": "clean", "touch_base": True}
 
 
 def _pattern_cases():
@@ -735,6 +804,8 @@ MALFORMED = [
     "run now",
     "call 1 0 c0",
     "resend - x",
+    "lab m 3 a b",
+    "lab m x",
     "resendout 0",
 ]
 
@@ -759,6 +830,8 @@ def gen_cases(rng, tier):
         yield _case(rng, d, mode, allow_dup, allow_ill)
     for _ in range(60 if tier == "quick" else 600):
         yield gen_chain(rng)
+    for _ in range(40 if tier == "quick" else 400):
+        yield _wired_case(rng)
     yield {"malformed": MALFORMED}
 
 
@@ -1008,7 +1081,7 @@ def _isolation(n, obj, path, out):
             _isolation(ch, _kid(obj, j), list(path) + [j], out)
 
 
-def _preview(n, mod, out, reverse=False):
+def _preview(n, mod, out, reverse=False, labs=None):
     """class-level interface of every macro class against the signature the generator wrote; classes are
     asked in definition order (a parent class before the class extending it) or in reverse"""
     from pyiron_workflow.channels import NOT_DATA
@@ -1020,7 +1093,11 @@ def _preview(n, mod, out, reverse=False):
             pv = cls.preview_io()
         except Exception as e:  # noqa: BLE001
             out.append(("preview-raised", f"M{m['id']}.preview_io() raised {type(e).__name__}: {str(e)[:200]}"))
+            if labs is not None and m["lab"] == "scrape" and m["rets"]:
+                labs[m["id"]] = "lab err"
             continue
+        if labs is not None and m["lab"] == "scrape" and m["rets"]:
+            labs[m["id"]] = "lab [" + ",".join(pv["outputs"]) + "]"
         exp_in = {f"x{k}": (HINT_OBJ[a["h"]], NOT_DATA if a["d"] is None else D.to_py(a["d"]))
                   for k, a in enumerate(m["args"])}
         got_in = dict(pv["inputs"])
@@ -1215,7 +1292,14 @@ def _run(case, modname, variant):
     if subs:
         bump("subclassed")
     facts["subclass_scraped"] = any(x["lab"] == "scrape" for x in subs)
-    _preview(defn, mod, facts["iface"], reverse=bool(subs) and not case.get("touch_base", True))
+    labs = {}
+    _preview(defn, mod, facts["iface"], reverse=bool(subs) and not case.get("touch_base", True), labs=labs)
+    for x in D.macros_of(defn):
+        if x["id"] in labs:
+            obs.append(labs[x["id"]])
+            bump("lab:scraped")
+            if any(x.get("loc") or []):
+                bump("lab:local")
     if facts["iface"]:
         facts["build"] = "iface"
         return res
@@ -1296,8 +1380,9 @@ def _run(case, modname, variant):
                 obs.append("st " + _show(snap))
                 run_fact = {"ok": True, "pristine": pristine}
                 ins_py = [m.inputs[f"x{k}"].value for k in range(len(defn["args"]))]
-                run_fact["flat"] = _run_flat(defn, ins_py, ov_py)
-                if pristine:
+                cyc = has_cyc(defn)
+                run_fact["flat"] = None if cyc else _run_flat(defn, ins_py, ov_py)
+                if pristine and not cyc:
                     obs.append("den [" + ",".join(py_eval(defn, snap["in"], {}, ())) + "]")
                     obs.append("flat [" + ",".join(run_fact["flat"]) + "]")
                 facts["runs"].append(run_fact)
@@ -1386,6 +1471,10 @@ def model_input(case, impl=None):
         return [" ".join(toks)]
     v = (impl or {}).get("variant") or [0, 0]
     lines = [f"cfg {v[0]} {v[1]}", "def " + " ".join(node_toks(case["def"]))]
+    for x in D.macros_of(case["def"]):
+        if x["lab"] == "scrape" and x["rets"]:
+            texts = D.ret_texts(x)
+            lines.append(" ".join(["lab", D.selfarg(x), str(len(texts)), *texts]))
     kw = []
     for k, val in case["kwargs"]:
         kw += [str(k), *ptoks(val)]
@@ -1414,7 +1503,7 @@ def corr_view(case, impl):
         return None
     if impl.get("facts", {}).get("build") == "err":
         # nothing exists after a refused construction: the model answers every later op with `nostate`
-        return ["build err"] + ["nostate"] * len(case["ops"])
+        return [x for x in obs if x.startswith("lab ")] + ["build err"] + ["nostate"] * len(case["ops"])
     return obs
 
 
@@ -1623,11 +1712,12 @@ def oracle(case, impl):
         if bad:
             return fails + bad
         if rf is not None and not any(k[0] == "in" for k in broken):
-            exp = py_eval(defn, s["in"], ov, ())
+            prev_s = next((x for x in reversed(snaps[:t]) if x is not None), None)
+            exp = py_eval(defn, s["in"], ov, (), prev_s)
             if s["out"] != exp:
                 return fails + _f("outputs", f"after op #{t} {op}: macro outputs {s['out']} but plain Python gives {exp}",
                                   trigger=op[0], against="python")
-            if rf["flat"] != exp:
+            if rf["flat"] is not None and rf["flat"] != exp:
                 return fails + _f("outputs", f"after op #{t} {op}: the inlined workflow gives {rf['flat']}, plain "
                                   f"Python {exp}", trigger=op[0], against="inlined-vs-python")
     return fails
